@@ -7,6 +7,7 @@ arbitrary RFC 8259 whitespace in every gap).  The index is `JsonIndex::build` as
 `Model/JsonNav.lean`; BP/IB primitives are taken at their specifications (see `level_note`).
 -/
 import SuccinctlyVerif.Proof.JsonNav
+import SuccinctlyVerif.Proof.JsonNavTree
 namespace SV.Props.C06
 open SV SV.JsonNav SV.JsonText SV.JsonSemi
 
@@ -57,5 +58,41 @@ theorem number_span_eq (x : Index) (start : Nat) :
 example : findStringEnd ⟨#[0x22#8, 0x61#8, 0x5C#8, 0x22#8, 0x62#8, 0x22#8, 0x20#8], Prims.spec [] []⟩ 0 = 5 := by
   decide
 example : nestedNumberSpan ⟨#[0x2D#8, 0x31#8, 0x2E#8, 0x35#8, 0x2C#8], Prims.spec [] []⟩ 0 = 4 := by decide
+
+/-! ### (c) navigation reconstructs the value -/
+
+/-- For every valid document and either SIMD level: walking the index from the root — `value()` by
+first byte, object fields by `JsonFields::uncons` (source order, duplicates kept), array elements by
+the `children` iterator (`first_child` / `next_sibling`), strings through `as_str()`, numbers through
+`JsonNumber::raw_bytes()` — yields exactly the value of the document tree (`valueOf`: literals,
+numbers as their literal text, strings decoded from the bytes between their quotes, elements in
+order, fields in source order).  `fuel` only bounds the recursion depth of the walk. -/
+theorem navigate_eq (hasAvx2 : Bool) (d : Doc) (fuel : Nat) (hf : depth d.value ≤ fuel) :
+    reconstruct (build hasAvx2 false d.text) fuel 0 = valueOf d.value :=
+  navigate_doc hasAvx2 d fuel hf
+
+/-- `JsonFields::find` / `find_cursor` on the object at cursor `p` of any index: when every key
+decodes, the result is the value of the LAST field — in `uncons` order, which by `navigate_eq` is
+source order — whose decoded key equals `name`, `None` when there is none.  (If some string key
+fails to decode the lookup returns `None` altogether: `findSpec`.) -/
+theorem find_last_dup (x : Index) (p : Nat) (name : List (BitVec 8))
+    (hok : ∀ kv ∈ objectFields x p, ∃ key, keyOf x kv.1 = some (.ok key)) :
+    findCursor x p name =
+      match ((objectFields x p).filter fun kv => keyIs x name kv.1).getLast? with
+      | some kv => some kv.2
+      | none => none := by
+  rw [findCursor, findLoop_eq]; exact findSpec_last x name _ none hok
+
+/-- Non-vacuity: `{"a":1,"a":[],"b":3,"a":null}` — `find("a")` is the `null` (fourth field, BP
+position 15), the walk returns all four fields in order. -/
+example :
+    let k : List SChar := [.plain ⟨0x61#8, by decide⟩]
+    let kb : List SChar := [.plain ⟨0x62#8, by decide⟩]
+    let one : JVal := .num ⟨false, .nonzero 0 [], none, none⟩
+    let d : Doc := ⟨[], .obj [] k [] [] one []
+      (.cons [] k [] [] (.arr0 []) [] (.cons [] kb [] [] one [] (.cons [] k [] [] (.lit .null) [] .nil))), []⟩
+    findCursor (build true false d.text) 0 [0x61#8] = some 15 ∧
+    (objectFields (build true false d.text) 0).length = 4 := by
+  decide +kernel
 
 end SV.Props.C06
